@@ -204,6 +204,24 @@ def run(ctx):
             segs = [p.PortSegment("enet", ip), p.PortSegment("bp", rng.randrange(20)), p.LogicalSegment(2, "class_id"), p.LogicalSegment(1, "instance_id")]
             out = call(enc, segs, length=True)
             judge(res, "route+router", f"route via {ip}", out, [("port", 2, ip.encode()), ("port", 1, segs[1].link_address), ("logical", "class", 2), ("logical", "instance", 1)])
+        # The same segment OBJECTS encoded again - after the caller changed them (route[-1].link_address = slot; generic_message
+        # again) and under the other packing: every emitted path must denote what the objects say at that moment.
+        for _ in range(1500 if quick else 20000):
+            alias, num = rng.choice(ports)
+            s1, s2 = rng.randrange(256), rng.randrange(256)
+            lname, rname = rng.choice(sorted(LTYPES.items()))
+            lv1, lv2 = rng.choice([5, 0xFF, 0x1FF, 0x12345]), rng.choice([7, 0x100, 0x2FF, 0x54321])
+            seg, lseg = p.PortSegment(alias, s1), p.LogicalSegment(lv1, lname)
+            if rng.random() < 0.5 and getattr(p, "PACKED_EPATH", None) is not None:
+                call(p.PACKED_EPATH.encode, [seg, lseg])          # packed first: no pad bytes - must not stick to the objects
+            out = call(enc, [seg, lseg], length=True)
+            judge(res, "reuse:first", f"PADDED_EPATH.encode([PortSegment({alias!r}, {s1}), LogicalSegment({lv1:#x}, {lname!r})])", out,
+                  [("port", num, s1), ("logical", rname, lv1)])
+            seg.link_address, lseg.logical_value = s2, lv2
+            out = call(enc, [seg, lseg], length=True)
+            judge(res, "reuse:changed", f"the same segment objects after link_address = {s2}, logical_value = {lv2:#x} (were {s1}, {lv1:#x})", out,
+                  [("port", num, s2), ("logical", rname, lv2)])
+            res.seen("reuse", width(lv1), width(lv2), isinstance(alias, str))
         # symbolic data segments on their own
         for n in range(1, 60):
             nm = rand_name(rng, n)
@@ -272,6 +290,10 @@ def run(ctx):
     for pi in range(4 if quick else 40):
         try:
             sc = LogixScenario(rng, size="medium", config=CONFIGS[(pi * ctx.nshards + ctx.shard) % len(CONFIGS)])
+            if not sc.ok():
+                # the Forward Open connection path / upload requests did not denote this controller (e.g. a backplane hop sent to a Micro800)
+                res.ev()
+                res.violation(f"wrong-path:e2e:open:{'micro800' if sc.micro else 'logix'}", f"LogixDriver({sc.path!r}).open() against a conforming {sc.label} controller -> {sc.opened!r:.200}", {"config": sc.label})
             if sc.ok():
                 for ci in range(10):
                     reqs = [logixreq.gen_request(sc.prj, rng, sc.conn_size) for _ in range(rng.choice([1, 3, 8]))]
